@@ -511,3 +511,101 @@ def observed_component(m):
         assocs.append((ass.rel_id, sl.to_metaclass.kind, frozenset(zip(ass.source_keys, ass.target_keys)),
                        sl.cardinality, tl.phrase, tl.to_metaclass.kind, tl.cardinality, sl.phrase))
     return classes, idents, sorted(assocs, key=repr)
+
+
+# ---------------------------------------------------------------------------
+# reference mapping for XSD generation (C20)
+# ---------------------------------------------------------------------------
+
+XS_CORE = {'boolean': 'xs:boolean', 'integer': 'xs:integer', 'real': 'xs:decimal', 'string': 'xs:string',
+           'unique_id': 'xs:integer'}
+
+
+def xsd_type_name(d, type_name):
+    '''the name an attribute or user type refers to in the XSD, None when unsupported'''
+    if type_name in XS_CORE:
+        return type_name
+    if any(n == type_name for n, _, _ in d.enums):
+        return type_name
+    if any(n == type_name for n, _, _ in d.udts):
+        return type_name
+    return None
+
+
+def resolve_udt(d, type_name):
+    seen = set()
+    while True:
+        base = [b for n, b, _ in d.udts if n == type_name]
+        if not base or type_name in seen:
+            return type_name
+        seen.add(type_name)
+        type_name = base[0]
+
+
+def reference_xsd(d):
+    '''
+    -> (types {name: ('restriction', base) | ('enum', [values])}, classes {KL: {attr: type}})
+    for the component of diagram *d* (types: global ones and those inside the component)
+    '''
+    types = dict((n, ('restriction', b)) for n, b in XS_CORE.items())
+    for name, values, where in d.enums:
+        types[name] = ('enum', list(values))
+    for name, base, where in d.udts:
+        b = xsd_type_name(d, base)
+        if b is not None:
+            types[name] = ('restriction', b)
+    classes = {}
+    for c in d.classes:
+        if c.where != 'comp':
+            continue
+        attrs = {}
+        for a in c.attrs:
+            if a.derived is not None:
+                continue
+            bkl, battr = base_of(d, c.kl, a.name)
+            t = resolve_udt(d, d.cls(bkl).attr(battr).type)
+            if t in XS_CORE or any(n == t for n, _, _ in d.enums):
+                attrs[a.name] = t
+        classes[c.kl] = attrs
+    return types, classes
+
+
+def observed_xsd(root):
+    '''the same structure read from an ElementTree / minidom-reparsed schema element'''
+    def local(tag):
+        return tag.split('}')[-1].split(':')[-1]
+    types, classes, problems = {}, {}, []
+    comps = []
+    for ch in list(root):
+        if local(ch.tag) == 'simpleType':
+            name = ch.get('name')
+            res = [x for x in list(ch) if local(x.tag) == 'restriction']
+            if name in types:
+                problems.append('simple type %r declared twice' % name)
+            if len(res) != 1:
+                problems.append('simple type %r has %d restrictions' % (name, len(res)))
+                continue
+            enums = [x.get('value') for x in list(res[0]) if local(x.tag) == 'enumeration']
+            base = res[0].get('base')
+            if base == 'xs:string' and (enums or name not in XS_CORE) and name != 'string':
+                types[name] = ('enum', enums)
+            else:
+                types[name] = ('restriction', base)
+        elif local(ch.tag) == 'element':
+            comps.append(ch)
+    if len(comps) != 1:
+        problems.append('%d component elements' % len(comps))
+    for comp in comps:
+        for el in comp.iter():
+            if local(el.tag) == 'element' and el is not comp:
+                kl = el.get('name')
+                if kl in classes:
+                    problems.append('class %r declared twice' % kl)
+                attrs = {}
+                for a in el.iter():
+                    if local(a.tag) == 'attribute':
+                        if a.get('name') in attrs:
+                            problems.append('attribute %s.%s declared twice' % (kl, a.get('name')))
+                        attrs[a.get('name')] = a.get('type')
+                classes[kl] = attrs
+    return types, classes, problems
